@@ -190,6 +190,9 @@ func EvalApplyFn(applyFn ast.ApplyFn, subst ast.Subst) (ast.Constant, error) {
 			label := &evaluatedArgs[i]
 			i++
 			value := &evaluatedArgs[i]
+			if hasKey(kvMap, label) {
+				continue // A key that is given more than once keeps its first value.
+			}
 			kvMap[label] = value
 		}
 		return *ast.Map(kvMap), nil
@@ -203,6 +206,9 @@ func EvalApplyFn(applyFn ast.ApplyFn, subst ast.Subst) (ast.Constant, error) {
 			label := &evaluatedArgs[i]
 			i++
 			value := &evaluatedArgs[i]
+			if hasKey(kvMap, label) {
+				continue // A key that is given more than once keeps its first value.
+			}
 			kvMap[label] = value
 		}
 		return *ast.Struct(kvMap), nil
@@ -1308,6 +1314,16 @@ func EvalReduceFn(reduceFn ast.ApplyFn, rows []ast.ConstSubstList) (ast.Constant
 	default:
 		return ast.Constant{}, fmt.Errorf("unknown reducer %v", reduceFn.Function)
 	}
+}
+
+// hasKey returns true if kvMap has a key that is equal to key.
+func hasKey(kvMap map[*ast.Constant]*ast.Constant, key *ast.Constant) bool {
+	for k := range kvMap {
+		if k.Equals(*key) {
+			return true
+		}
+	}
+	return false
 }
 
 // EvalAtom returns an atom with any apply-expressions evaluated.
